@@ -75,11 +75,71 @@ func (e *Exec) classOfStruct(t types.Type, obj *StructV) *Term {
 	if len(parts) == 1 {
 		return parts[0]
 	}
+	return e.compositeClass(t, parts)
+}
+
+// compositeClass: the class of an item keyed by several fields is a combination of the field classes. In general an
+// uninterpreted injective function (the projections cls.T.p<i> recover the parts: asserted at every ground class term
+// built). For the item types listed in timeMajorKeys — an instant, then a row — the order on classes must be
+// time-major (justified by the `lex` postcondition proved of the type's own Less method), so the combination is
+// arithmetic: instant * 2^64 + row class, with row classes ranging over [0, 2^64) (an execution meets fewer than 2^64
+// distinct rows; listed assumption). Then the projections are div / mod, the pairing is injective and order on classes
+// is lexicographic by construction — no axioms.
+func (e *Exec) compositeClass(t types.Type, parts []*Term) *Term {
+	name := "cls." + sanitize(typeKey(t))
+	if timeMajorKeys[typeBase(t)] && len(parts) == 2 {
+		e.rowRangeAxiom()
+		return add(mk(SInt, "*", parts[0], bigLit(pow64)), parts[1])
+	}
 	var sorts []string
 	for range parts {
 		sorts = append(sorts, SInt)
 	}
-	return ufun("cls."+sanitize(typeKey(t)), sorts, SInt, parts...)
+	c := ufun(name, sorts, SInt, parts...)
+	if e.clsSeen == nil {
+		e.clsSeen = map[*Term]bool{}
+	}
+	if !e.clsSeen[c] && !hasBound(c) {
+		e.clsSeen[c] = true
+		for i, p := range parts {
+			e.assume(eq(ufun(fmt.Sprintf("%s.p%d", name, i), []string{SInt}, SInt, c), p))
+		}
+	}
+	return c
+}
+
+const pow64 = "18446744073709551616"
+
+var timeMajorKeys = map[string]bool{"watermarkTriggerKey": true}
+
+func typeBase(t types.Type) string {
+	if n, ok := t.(*types.Named); ok {
+		return n.Obj().Name()
+	}
+	return ""
+}
+
+// rowRangeAxiom: row classes lie in [0, 2^64) (asserted once per unit that uses a time-major class).
+func (e *Exec) rowRangeAxiom() {
+	if e.clsAxiom == nil {
+		e.clsAxiom = map[string]bool{}
+	}
+	if e.clsAxiom["row"] {
+		return
+	}
+	e.clsAxiom["row"] = true
+	var vs []*Term
+	var binder []string
+	for i := 0; i < 3; i++ {
+		nbound++
+		v := mk(SInt, fmt.Sprintf("r!q%d", nbound))
+		vs = append(vs, v)
+		binder = append(binder, "("+v.Op+" Int)")
+	}
+	r := ufun("cls.row", []string{SInt, SInt, SInt}, SInt, vs...)
+	pat := mk("attr", fmt.Sprintf(":pattern ((cls.row %s %s %s))", vs[0].Op, vs[1].Op, vs[2].Op))
+	e.assume(mk(SBool, "forall", mk("binder", "("+strings.Join(binder, " ")+")"), mk(SBool, "!", and(le(intLit(0), r), lt(r, bigLit(pow64))), pat)))
+	e.assumed = append(e.assumed, "btree theory: time-major item classes are instant * 2^64 + row class with row classes in [0, 2^64) — relies on the lex postcondition of the item type's Less")
 }
 
 func isOctoValue(t types.Type) bool {
@@ -91,7 +151,7 @@ func isValueSlice(s *types.Slice) bool { return isOctoValue(s.Elem()) }
 
 // keyIncludesAux: item types whose Less compares a time.Time with == (so the zone/monotonic part takes part in the key).
 func keyIncludesAux(t types.Type, field string) bool {
-	return strings.HasSuffix(typeKey(t), "watermarkTriggerKey")
+	return false // (watermarkTriggerKey compared its time with == before the fix recorded in known_findings.json)
 }
 
 func (e *Exec) itemClass(fr *Frame, st *BState, arg ssa.Value, sv SV) *Term {
@@ -291,6 +351,33 @@ func (env *SpecEnv) btreeSpec(name string, n *ast.CallExpr) (SV, bool) {
 			return v, true
 		}
 		return boolSV(tFalse), true
+	case "kpair":
+		// kpair(T, a, b, ...): the class of a T item whose key parts have the given classes
+		t, err := resolveTypeExpr(env.pkg, n.Args[0])
+		if err != nil {
+			panic("spec: " + err.Error())
+		}
+		var parts []*Term
+		for _, a := range n.Args[1:] {
+			parts = append(parts, scal(env.eval(a)))
+		}
+		return intSV(e.compositeClass(t, parts)), true
+	case "kpart":
+		// kpart(T, i, k): the i-th key part of class k of item type T
+		t, err := resolveTypeExpr(env.pkg, n.Args[0])
+		if err != nil {
+			panic("spec: " + err.Error())
+		}
+		idx := n.Args[1].(*ast.BasicLit).Value
+		if timeMajorKeys[typeBase(t)] {
+			e.rowRangeAxiom()
+			op := "div"
+			if idx == "1" {
+				op = "mod"
+			}
+			return intSV(mk(SInt, op, scal(env.eval(n.Args[2])), bigLit(pow64))), true
+		}
+		return intSV(ufun("cls."+sanitize(typeKey(t))+".p"+idx, []string{SInt}, SInt, scal(env.eval(n.Args[2])))), true
 	case "keycls":
 		// keycls(x): the key class of a btree item value or pointer
 		v := env.eval(n.Args[0])
